@@ -303,20 +303,31 @@ class Override(Contract):
     merge = True
     replayable = False
 
-    def __init__(self, key, value, expect):
-        self.key, self.value, self.expect = key, value, expect
-        self.name = f"override {key}={value}"
+    def __init__(self, key, value, expect, rng=None, base=None):
+        self.key, self.value, self.expect, self.rng, self.base = key, value, expect, rng, base or {}
+        self.name = f"override {key}={value}" if rng is None else f"override {key}=<any number in [{rng[0]},{rng[1]}]>"
+        if base:
+            self.name += " on " + ",".join(f"{k}={v}" for k, v in base.items())
 
     def inputs(self, S):
         o1, o2 = dict(BASE), dict(BASE)
-        o2[self.key] = self.value
+        o1.update(self.base)
+        o2.update(self.base)
+        if self.rng is None:
+            o2[self.key] = self.value
+        else:
+            # a number as a YAML file gives it: every value of the accepted range, both ends included
+            v = S.real("override_value")
+            S.assume(And(v >= self.rng[0], v <= self.rng[1]))
+            o2[self.key] = unwrap(v)
+            self.sym_value = v
         row = country_row(S)
         r1, r2 = S.obj(RS, "ScenarioRunner"), S.obj(RS, "ScenarioRunner")
         return dict(calls=[dict(func=self.func, args=[r1, o1, row]), dict(func=self.func, args=[r2, o2, dict(row)])])
 
     def ensures(self, S, a, res):
         c1, c2 = unwrap(res)[0][0], unwrap(res)[1][0]
-        changed = self.expect(c1)
+        changed = self.expect(c1) if self.rng is None else self.expect(c1, self.sym_value)
         out = {}
         keys = set(c1) | set(c2)
         same = []
@@ -445,6 +456,15 @@ def _mk():
     cs.append(Override("kg_meat_per_large_animal", "250", lambda c1: {"kg_meat_per_large_animal": 250}))
     cs.append(Override("CROP_PRODUCTION_MULTIPLIER", "2", crop_mult))
     cs.append(Override("GRASSES_PRODUCTION_MULTIPLIER", "0.5", grass_mult))
+    cs.append(Override("MINIMUM_PERCENT_FED_BEFORE_NONHUMAN_CONSUMPTION_ALLOWED", None,
+                       lambda c1, v: {"MINIMUM_PERCENT_FED_BEFORE_NONHUMAN_CONSUMPTION_ALLOWED": v}, rng=(0, 100)))
+    cs.append(Override("RATIO_STOCKS_UNTOUCHED", None, lambda c1, v: {"RATIO_STOCKS_UNTOUCHED": v}, rng=(0, 1)))
+    cs.append(Override("RATIO_STOCKS_UNTOUCHED", None, lambda c1, v: {"RATIO_STOCKS_UNTOUCHED": v}, rng=(0, 1),
+                       base={"ratio_stocks_untouched": "baseline"}))
+    cs.append(Override("CROP_PRODUCTION_MULTIPLIER", None, lambda c1, v: {
+        f"RATIO_CROPS_YEAR{y}": V(c1[f"RATIO_CROPS_YEAR{y}"]) * v for y in range(1, 12) if f"RATIO_CROPS_YEAR{y}" in c1}, rng=(0, 10)))
+    cs.append(Override("GRASSES_PRODUCTION_MULTIPLIER", None, lambda c1, v: {
+        f"RATIO_GRASSES_YEAR{y}": V(c1[f"RATIO_GRASSES_YEAR{y}"]) * v for y in range(1, 11)}, rng=(0, 10)))
     for sp in ("milk_cattle", "asses", "turkey", "rabbit", "chicken"):
         cs.append(Override(f"{sp}_head", "1234", lambda c1, sp=sp: {f"{sp}_head_start": 1234}))
     return cs
@@ -473,7 +493,47 @@ class CustomParameters(Contract):
                 "callers_option_dictionary_unmodified": V(a["opts"] == a["snapshot"])}
 
 
-CONTRACTS = _mk() + [CustomParameters()]
+class KnownToFail(Contract):
+    """ScenarioRunner.alter_scenario_if_known_to_fail: for EVERY country code and every value of the option
+    families it inspects (symbolic strings), the caller's dictionary is left as it was, the returned dictionary is a
+    different object, and it differs from the caller's at most in 'shutoff' (set to 'immediate')."""
+    prop = "C13"
+    file = RS
+    func = "ScenarioRunner.alter_scenario_if_known_to_fail"
+    name = "known_failure_patch_is_applied_to_a_copy"
+    max_paths = 4000
+
+    KEYS = ("cull", "scenario", "shutoff", "crop_disruption", "meat_strategy", "ratio_stocks_untouched")
+
+    def inputs(self, S):
+        opts = dict(BASE)
+        for k in self.KEYS:
+            opts[k] = unwrap(S.str("opt_" + k))
+        snapshot = dict(opts)
+        iso3 = S.str("iso3")
+        return dict(args=[S.obj(RS, "ScenarioRunner"), opts, iso3], opts=opts, snapshot=snapshot)
+
+    def ensures(self, S, a, res):
+        import ast as _ast
+        r = unwrap(res)
+        I = S.I
+        same_keys = isinstance(r, dict) and set(r.keys()) == set(a["snapshot"].keys())
+        others = []
+        if same_keys:
+            for k, v in a["snapshot"].items():
+                if k == "shutoff":
+                    others.append(Or(V(I.truth(I.compare(_ast.Eq(), r[k], v))), V(I.truth(I.compare(_ast.Eq(), r[k], "immediate")))))
+                else:
+                    others.append(V(I.truth(I.compare(_ast.Eq(), r[k], v))))
+        unmod = [V(set(a["opts"].keys()) == set(a["snapshot"].keys()))]
+        if unmod[0].v:
+            unmod += [V(I.truth(I.compare(_ast.Eq(), a["opts"][k], a["snapshot"][k]))) for k in a["snapshot"]]
+        return {"callers_option_dictionary_unmodified": And(*unmod),
+                "result_is_not_the_callers_dictionary": V(r is not a["opts"]),
+                "result_differs_at_most_in_shutoff_set_to_immediate": And(V(same_keys), *others)}
+
+
+CONTRACTS = _mk() + [CustomParameters(), KnownToFail()]
 EXTRA = [head_override_columns]
 TRUSTED = [
     "option strings are literal (the documented configuration space); the country row's numbers are symbolic (numpy float64 semantic: x/0 is nan)",
